@@ -73,7 +73,8 @@ func VerifIdle(in VerifIdleIn) (pto, start, nextIdle, nextKeepAlive int64) {
 func VerifNegotiate(cfgMaxIdle, peerMaxIdle, keepAlivePeriod time.Duration) (idle, keepAliveInterval time.Duration) {
 	rtt := utils.NewRTTStats()
 	c := &Conn{
-		config:      &Config{MaxIdleTimeout: cfgMaxIdle, KeepAlivePeriod: keepAlivePeriod},
+		// as every real connection: the user's Config goes through populateConfig (0 = default idle timeout)
+		config:      populateConfig(&Config{MaxIdleTimeout: cfgMaxIdle, KeepAlivePeriod: keepAlivePeriod}),
 		rttStats:    rtt,
 		perspective: protocol.PerspectiveClient,
 		peerParams:  &wire.TransportParameters{MaxIdleTimeout: peerMaxIdle, ActiveConnectionIDLimit: 2},
